@@ -627,6 +627,11 @@ impl Exec {
                 let inst = self.gen(op, "g");
                 inst.jitter().expect("jitter op on non-jitter").set_rounds(r);
             }
+            "arm_fault" => {
+                let after = get_u64(op, "after") as usize;
+                let inst = self.gen(op, "g");
+                inst.jitter().expect("jitter op on non-jitter").arm_fault(after);
+            }
             "timer_stats" => {
                 let var = op["var"].as_bool().unwrap();
                 let inst = self.gen(op, "g");
